@@ -548,6 +548,47 @@ theorem export_written_of_ok (r : String → Option String) (format : String) (p
     · simp
     · split <;> simp
 
+/-! ## ValOrRef: a reference is resolved on the data of the moment
+
+  `ValOrRef.resolve` and `exportOp` are functions of the configuration and of the data document
+  they are given — there is no other input, so in the model an earlier execution of the same
+  operation cannot show in a later one.  The harness executes ONE `ExportOp` object several times
+  while the data changes and compares every execution with these functions on the data of that
+  moment (case kind `rerun`). -/
+
+/-- "If Path references non-existent node, or node pointed to is not a dom.Leaf, empty value is
+    returned" (pipeline/types.go) -/
+theorem resolve_ref_unresolved (r : String → Option String) (data : AMap Node) (pv : ValOrRef)
+    (h : pv.isRef = true) (hn : ∀ v, lookup data pv.ref ≠ some (.leaf v)) :
+    pv.resolve r data = "" := by
+  unfold ValOrRef.resolve
+  rw [if_pos h]
+  split
+  · rename_i v hv
+    exact absurd hv (hn v)
+  · rfl
+
+/-- a reference that resolves to a leaf yields the (leniently rendered) `%v` text of that leaf -/
+theorem resolve_ref_leaf (r : String → Option String) (data : AMap Node) (pv : ValOrRef) (v : Scalar)
+    (h : pv.isRef = true) (hv : lookup data pv.ref = some (.leaf v)) :
+    pv.resolve r data = renderLenient r v.text := by
+  simp [ValOrRef.resolve, h, hv]
+
+/-- an export whose path reference does not — or no longer — resolve to a leaf "is considered as if
+    path does not resolve at all": the empty document for yaml / json / properties, the empty text
+    for text — whatever the reference resolved to in an earlier execution -/
+theorem export_ref_unresolved_default (r : String → Option String) (format : String) (pv : ValOrRef)
+    (data : AMap Node) (h : pv.isRef = true) (hn : ∀ v, lookup data pv.ref ≠ some (.leaf v)) :
+    exportOp r format (some pv) true data =
+      match Format.ofString format with
+      | .unknown => (true, false, none)
+      | .text => (false, true, some (.text ""))
+      | f => (false, true, some (.doc f [])) := by
+  have hr := resolve_ref_unresolved r data pv h hn
+  have hl : lookup data "" = none := by simp [lookup]
+  simp only [exportOp, hr, hl, Target.of]
+  cases Format.ofString format <;> simp [exportDecision]
+
 /-! ## Import ∘ Export -/
 
 /-- Contract on the codec pair of one format: decoding what the encoder wrote for a container
@@ -723,6 +764,26 @@ theorem nonvacuous_env_frame :
   intro p hp
   simp only [List.mem_cons, List.mem_nil_iff, or_false] at hp
   rcases hp with rfl | rfl | rfl <;> exact ⟨by decide, by decide, by decide⟩
+
+def exRef : AMap Node :=
+  [("a", .cont [("b", .leaf ⟨"int", "1"⟩)]), ("pref", .leaf ⟨"string", "a"⟩)]
+
+/-- the history the harness replays: the reference `pref` resolves to the leaf "a" (the container
+    `a` is exported); after the leaf is removed, or replaced by a container, the hypotheses of
+    `resolve_ref_unresolved` / `export_ref_unresolved_default` hold and the empty document is
+    written by the very same configuration -/
+theorem nonvacuous_ref :
+    ValOrRef.resolve (fun _ => none) exRef ⟨true, "pref", ""⟩ = "a" ∧
+    (exportOp (fun _ => none) "yaml" (some ⟨true, "pref", ""⟩) true exRef).2.1 = true ∧
+    lookup exRef "a" = some (.cont [("b", .leaf ⟨"int", "1"⟩)]) ∧
+    (∀ v, lookup (removeAt exRef "pref") "pref" ≠ some (.leaf v)) ∧
+    (∀ v, lookup (addValueAt exRef "pref" (.cont [])) "pref" ≠ some (.leaf v)) ∧
+    ValOrRef.resolve (fun _ => none) (removeAt exRef "pref") ⟨true, "pref", ""⟩ = "" := by
+  have h1 : lookup (removeAt exRef "pref") "pref" = none := by decide +kernel
+  have h2 : lookup (addValueAt exRef "pref" (.cont [])) "pref" = some (.cont []) := by decide +kernel
+  refine ⟨by decide +kernel, by decide +kernel, by decide +kernel, ?_, ?_, by decide +kernel⟩
+  · intro v; rw [h1]; simp
+  · intro v; rw [h2]; simp
 
 theorem nonvacuous_lenient : possiblyTemplate "x {{ .a }}" = true ∧ possiblyTemplate "{{ open" = false ∧
     possiblyTemplate "}} {{" = false ∧ indexOf2 '{' '{' "a { b } c".toList = none := by decide
